@@ -18,6 +18,7 @@
  *   R <slot> P <tid> <off> | R <slot> V <n>     the same for a root slot
  *   G                             collect, then report      C   report without collecting
  *   L <n> <link>                  (probe) chain of n two-word pieces linked through word <link>, head in root 1
+ *   N                             (probe) collect, then answer only `live=<n> changed=<n> dead=<n>`
  * answer to G/C:  `id:w,w,.. id:w,..| dead=<ids> reused=<ids> badpoison=<ids>` listing every piece that
  * is still allocated (stoIsPointer) with its words decoded against what was written:
  *   n = untouched new fill (0xAA..), <number> = integer, p<tid>+<off> = pointer, !<hex> = anything else;
@@ -33,7 +34,7 @@
 #include <signal.h>
 #include <sys/mman.h>
 
-#define MAXB   400000
+#define MAXB   1200000                  /* most pieces in one history */
 #define NROOT  16
 #define NEWW   0xAAAAAAAAAAAAAAAAUL
 #define DDDW   0xDDDDDDDDDDDDDDDDUL
@@ -42,12 +43,17 @@ typedef struct { char k; int t; int off; } Shadow;   /* k: 'n' new, 'v' value (o
 
 Pointer gc_roots[NROOT];                 /* the roots: static data, scanned by stoGcMark */
 
-static unsigned long tab[MAXB];          /* ~address of piece id */
-static int     nwords[MAXB];
-static char    state[MAXB];              /* 0 live, 1 found freed, 2 overlapped by a later piece */
-static Shadow *shadow[MAXB];
+/* The tables grow on demand and live in their own mappings: every writable mapping of the process is
+ * scanned by stoGcMark at every collection, so they are kept as small as the history needs. */
+static unsigned long *tab;               /* ~address of piece id */
+static int     *nwords;
+static char    *state;                   /* 0 live, 1 found freed, 2 overlapped by a later piece */
+static Shadow **shadow;
+static int     *live_ids, *deadv, *reusedv, *badv;
+static int      cap;                     /* capacity of the tables */
+static Shadow  *slab; static int slab_lo, slab_hi;   /* shadows of the pieces of an `L` chain */
 static int     nblk;
-static int     live_ids[MAXB], nlive;    /* ids with state 0 */
+static int     nlive;                    /* number of entries of live_ids (ids with state 0) */
 static ULong   gc_bytes_seen;            /* stoBytesGc at the last survey: unchanged => nothing was reclaimed since */
 
 static int opbase, opend;                /* token range of the operation being executed */
@@ -69,6 +75,34 @@ static void shadow_free(Shadow *p, int n)
 	size_t sz = sizeof(Shadow) * (size_t) n;
 	if (!p) return;
 	if (sz >= SHADOW_MMAP) munmap(p, sz); else free(p);
+}
+
+static void *map_bytes(size_t sz)
+{
+	void *p = mmap(0, sz ? sz : 1, PROT_READ | PROT_WRITE, MAP_PRIVATE | MAP_ANONYMOUS, -1, 0);
+	if (p == MAP_FAILED) { fprintf(stderr, "gc_drv: cannot map %lu bytes\n", (unsigned long) sz); exit(3); }
+	return p;
+}
+#define GROW(v, T) do { T *nv = (T *) map_bytes(sizeof(T) * (size_t) ncap); \
+	if (v) { memcpy(nv, v, sizeof(T) * (size_t) cap); munmap(v, sizeof(T) * (size_t) cap); } v = nv; } while (0)
+static void ensure_cap(int want)
+{
+	int ncap = cap ? cap : 8192;
+	if (want <= cap) return;
+	while (ncap < want) ncap *= 2;
+	GROW(tab, unsigned long); GROW(nwords, int); GROW(state, char); GROW(shadow, Shadow *);
+	GROW(live_ids, int); GROW(deadv, int); GROW(reusedv, int); GROW(badv, int);
+	cap = ncap;
+}
+static void drop_tables(void)
+{
+	int ncap = 0;
+	if (cap <= 65536) return;
+#define DROP(v, T) do { munmap(v, sizeof(T) * (size_t) cap); v = 0; } while (0)
+	DROP(tab, unsigned long); DROP(nwords, int); DROP(state, char); DROP(shadow, Shadow *);
+	DROP(live_ids, int); DROP(deadv, int); DROP(reusedv, int); DROP(badv, int);
+	cap = ncap;
+	ensure_cap(8192);
 }
 
 static sigjmp_buf segv_env;
@@ -111,6 +145,7 @@ static __attribute__((noinline)) int do_alloc(int code, int n)
 	int i, j, id = nblk;
 	Pointer p;
 	if (nblk >= MAXB || n <= 0) return -1;
+	ensure_cap(nblk + 1);
 	p = (Pointer) stoAlloc((unsigned) code, (ULong) n * 8);
 	if (!p) return -1;
 	a = (unsigned long) p;
@@ -128,7 +163,8 @@ static __attribute__((noinline)) int do_alloc(int code, int n)
 	tab[id] = ~a;
 	nwords[id] = n;
 	state[id] = 0;
-	shadow[id] = shadow_new(n);
+	if (slab && id >= slab_lo && id < slab_hi) shadow[id] = slab + 2 * (size_t) (id - slab_lo);
+	else shadow[id] = shadow_new(n);
 	if (!shadow[id]) return -1;
 	for (i = 0; i < n; i++) { shadow[id][i].k = 'n'; shadow[id][i].t = 0; shadow[id][i].off = 0; }
 	live_ids[nlive++] = id;
@@ -179,7 +215,6 @@ static void show_ids(const char *what, int *v, int n)
 	for (i = 0; i < n; i++) printf("%s%d", i ? "," : "", v[i]);
 }
 
-static int deadv[MAXB], reusedv[MAXB], badv[MAXB];
 
 static __attribute__((noinline)) void report(void)
 {
@@ -231,6 +266,24 @@ static __attribute__((noinline)) void report(void)
 	show_ids("badpoison", badv, nb);
 }
 
+/* `N`: how many pieces are still allocated, how many of those differ from what was written, how many are gone */
+static __attribute__((noinline)) void count_report(void)
+{
+	int i, j, k, nd = 0, nchg = 0;
+	for (i = j = 0; i < nlive; i++) {
+		int b = live_ids[i];
+		unsigned long a = ~tab[b], *w = (unsigned long *) a;
+		if (!safe_is_pointer(a)) { state[b] = 1; nd++; continue; }
+		live_ids[j++] = b;
+		for (k = 0; k < nwords[b]; k++)
+			if (w[k] != expect(&shadow[b][k])) { nchg++; break; }
+		w = 0;
+	}
+	nlive = j;
+	gc_bytes_seen = stoBytesGc;
+	printf("live=%d changed=%d dead=%d", nlive, nchg, nd);
+}
+
 static __attribute__((noinline)) void do_gc(void)
 {
 	scrub();
@@ -241,9 +294,15 @@ static void reset(void)
 {
 	int i;
 	for (i = 0; i < NROOT; i++) gc_roots[i] = 0;
-	for (i = 0; i < nblk; i++) { shadow_free(shadow[i], nwords[i]); shadow[i] = 0; }
+	for (i = 0; i < nblk; i++) {
+		if (!(slab && i >= slab_lo && i < slab_hi)) shadow_free(shadow[i], nwords[i]);
+		shadow[i] = 0;
+	}
+	if (slab) { munmap(slab, sizeof(Shadow) * 2 * (size_t) (slab_hi - slab_lo)); slab = 0; }
+	drop_tables();
 	nblk = nlive = 0;
 	do_gc();
+	gc_bytes_seen = stoBytesGc;      /* nothing is tracked yet: nothing can have been reclaimed under us */
 }
 
 int main(int argc, char **argv)
@@ -293,7 +352,8 @@ int main(int argc, char **argv)
 			}
 			else if (op == 'L' && n == 3) {
 				/* impl-only probe: a chain of <n> two-word pieces linked through word <link>, head in root 1 */
-				int i, len = atoi(drv_tok[k + 1]), link = atoi(drv_tok[k + 2]) & 1, ok = 1;
+				int i, len = atoi(drv_tok[k + 1]), link = atoi(drv_tok[k + 2]) & 1, ok = !slab && len > 0 && nblk + len <= MAXB;
+				if (ok) { slab = (Shadow *) map_bytes(sizeof(Shadow) * 2 * (size_t) len); slab_lo = nblk; slab_hi = nblk + len; }
 				for (i = 0; i < len && ok; i++) {
 					int id = do_alloc(0, 2);
 					ok = id >= 0;
@@ -302,6 +362,13 @@ int main(int argc, char **argv)
 				}
 				s.k = 'v'; s.off = 0; do_root(0, &s);
 				printf(ok ? "l" : "bad-op");
+			}
+			else if (op == 'N' && n == 1) {
+				/* impl-only probe: collect, then only count (a chain of 10^6 pieces is not listed) */
+				do_gc();
+				scrub();
+				count_report();
+				stoAudit();
 			}
 			else printf("bad-op");
 		}
